@@ -495,3 +495,11 @@ SHADOWS = {
 # isinstance(x, int) inside instrumented code names the *shadow* `int`; map it back
 _TYPE_ALIAS.update({s_int: _b.int, s_float: _b.float, s_str: _b.str, s_bool: _b.bool})
 SYM_MATH = _SymMath()
+
+
+def _sum_gen(fn, it):
+    from .hj import sym_sum_gen
+    return sym_sum_gen(fn, it)
+
+
+SHADOWS['__sym_sum_gen'] = _sum_gen
